@@ -128,6 +128,25 @@ def c03_boundary():
                                   "body": 6})
                 scripts.append({"draws": [at], "mid": 4096, "events": ev + [sub, far_end([sub])], "rules": rules,
                                 "tag": f"mid-collision:{theirs}:{do}@copy{k}"})
+    # a message of the peer that belongs to an OLDER token -- a notification of a running observation, the separate
+    # response to a request already acknowledged -- arrives while a newer CON to that peer is unacknowledged (its
+    # first copy, or its ACK, was lost): that is no acknowledgement of the newer CON, which goes on being retransmitted
+    at, factor, mr = TUNINGS[0]
+    for kind in ("notif-NON", "notif-CON", "sep-NON", "sep-CON"):
+        for k in (1, 2):
+            for later in ("silence", "piggy"):
+                notif = kind.startswith("notif")
+                sub0 = submit(1000, 0, 0, rel=True, observing=notif, maxretr=mr, tuning=[at, factor])
+                rules = [{"remote": 0, "mtype": "CON", "nth": 1, "after": 500, "do": "piggy", "obs": 1, "body": 1}
+                         if notif else {"remote": 0, "mtype": "CON", "nth": 1, "after": 500, "do": "ack"}]
+                t1 = 1000 + 3 * M
+                sub1 = submit(t1, 1, 0, rel=True, maxretr=mr, tuning=[at, factor])
+                tr = t1 + at * (2 ** (k - 1) - 1) + 500
+                ev = [sub0, sub1, ["R", tr, 0, False, kind[-3:], CONTENT, 7000, "21", 2 if notif else None, 9]]
+                if later == "piggy":
+                    rules.append({"remote": 0, "mtype": "CON", "nth": 1 + k + 1, "after": 300, "do": "piggy", "body": 4})
+                scripts.append({"draws": [at, at], "events": ev + [far_end(ev)], "rules": rules,
+                                "tag": f"older-token-message-while-in-flight:{kind}@copy{k}:{later}"})
     # remote 5 is sent to under an address with a zone (scope id 1) and heard from with scope id 0, as the kernel
     # reports a non-link-local source: its ACK / RST / piggy-backed response still are "from the same endpoint"
     at, factor, mr = TUNINGS[0]
@@ -272,26 +291,29 @@ def c14_boundary():
                  {"remote": 0, "mtype": "CON", "nth": 2, "do": "ack", "after": 3 * M}]
         scripts.append({"events": ev, "rules": rules, "draws": [2 * M + 11, 2 * M + 13],
                         "tag": "nstart:separate-response-vs-" + first})
-    for variant in ("ack-ack-ack", "ack-rst-ack", "silence", "error", "rst-first", "piggy"):
-        ev = [submit(1000, 0, 0, rel=True), submit(1010, 1, 0, rel=True), submit(1020, 2, 0, rel=True),
-              submit(1030, 3, 0, rel=False), submit(1040, 4, 1, rel=True)]
+    # A = remote 0, and again A = remote 5: an endpoint named with a zone on a non-link-local address (sent to with
+    # scope id 1, heard from with scope id 0) is one endpoint, with one queue
+    for A in (0, 5):
+      for variant in ("ack-ack-ack", "ack-rst-ack", "silence", "error", "rst-first", "piggy"):
+        ev = [submit(1000, 0, A, rel=True), submit(1010, 1, A, rel=True), submit(1020, 2, A, rel=True),
+              submit(1030, 3, A, rel=False), submit(1040, 4, 1, rel=True)]
         rules = [{"remote": 1, "mtype": "CON", "nth": 1, "do": "ack", "after": 300}]
         if variant == "ack-ack-ack":
-            rules += [{"remote": 0, "mtype": "CON", "nth": k, "do": "ack", "after": 5000} for k in (1, 2, 3)]
+            rules += [{"remote": A, "mtype": "CON", "nth": k, "do": "ack", "after": 5000} for k in (1, 2, 3)]
         elif variant == "ack-rst-ack":
-            rules += [{"remote": 0, "mtype": "CON", "nth": 1, "do": "ack", "after": 5000},
-                      {"remote": 0, "mtype": "CON", "nth": 2, "do": "rst", "after": 5000},
-                      {"remote": 0, "mtype": "CON", "nth": 3, "do": "ack", "after": 5000}]
+            rules += [{"remote": A, "mtype": "CON", "nth": 1, "do": "ack", "after": 5000},
+                      {"remote": A, "mtype": "CON", "nth": 2, "do": "rst", "after": 5000},
+                      {"remote": A, "mtype": "CON", "nth": 3, "do": "ack", "after": 5000}]
         elif variant == "error":
-            ev.append(["E", 3 * M, 0])
+            ev.append(["E", 3 * M, A])
         elif variant == "rst-first":
-            rules += [{"remote": 0, "mtype": "CON", "nth": 1, "do": "rst", "after": 100}]
+            rules += [{"remote": A, "mtype": "CON", "nth": 1, "do": "rst", "after": 100}]
         elif variant == "piggy":
-            rules += [{"remote": 0, "mtype": "CON", "nth": k, "do": "piggy", "after": 5000, "body": k}
+            rules += [{"remote": A, "mtype": "CON", "nth": k, "do": "piggy", "after": 5000, "body": k}
                       for k in (1, 2, 3)]
         ev.append(far_end(ev))
         scripts.append({"events": ev, "rules": rules, "draws": [2 * M + 7 * i for i in range(6)],
-                        "tag": "nstart:" + variant})
+                        "tag": "nstart:" + variant + (":zoned-global" if A else "")})
     # the peer has just used, for requests / pings of its own, the message IDs our next CONs get: its empty ACK or
     # RST still ends our exchange and releases the held-back messages
     for theirs in ("CON", "NON", "ping"):
@@ -877,13 +899,14 @@ def c18_obs_consumer(rng):
     rules = [{"remote": 0, "mtype": "CON", "nth": 1, "after": 500, "do": "piggy", "obs": 1, "body": 1}]
     t = 1000 + 500
     mid = 5000
-    for i in range(rng.randrange(0, 4)):
+    quiet = rng.random() < 0.15           # established, and no notification ever arrives
+    for i in range(0 if quiet else rng.randrange(0, 4)):
         t = clock.at(t + rng.choice([1, 1000, M]))
         events.append(["R", t, 0, False, "NON", CONTENT, mid, tok, 2 + i, 2 + i])
         mid += 1
     ts = clock.at(t + rng.choice([1, 1000, 2 * M]))
     note = ["R", ts, 0, False, rng.choice(["NON", "CON"]), CONTENT, mid, tok, 50, 50]
-    k = rng.randrange(6)
+    k = 5 if quiet else rng.randrange(6)
     if k == 0:
         # the application calls shutdown(); the datagram is dispatched later in the same loop iteration
         events.append(["N", ts, [["X", ts, rng.random() < 0.7], note]])
@@ -907,9 +930,14 @@ def c18_obs_consumer(rng):
             events.append(["K", tk, 0])
             events.append(submit(clock.at(max(1700, tk - 50)), 1, 1, rel=False))
             tag = "observation-consumer-cancelled"
+    consume = True
+    if tag == "observation-consumer" and rng.random() < (0.7 if quiet else 0.25):
+        # the application starts iterating only after its shutdown() has returned (it awaited the response, did
+        # something else): it must be told the end, whether or not a notification had arrived before
+        consume, tag = "late", "observation-consumer-late"
     events.sort(key=lambda e: e[1])
     events.append(far_end(events))
-    return {"events": events, "rules": rules, "draws": [], "tag": tag, "consume": True,
+    return {"events": events, "rules": rules, "draws": [], "tag": tag, "consume": consume,
             "oracle_only": "application-iterates-observation", "second_context": True}
 
 
@@ -974,6 +1002,23 @@ def c02_boundary():
     ev.append(["R", 10010, 0, False, "NON", CONTENT, 3001, "01", None, 200])
     ev.append(far_end(ev))
     scripts.append({"events": ev, "rules": [], "draws": [], "token": 0, "tag": "token-long-run"})
+    # message IDs of the PEER's responses: a response is matched by token and source, never by the message ID it
+    # happens to come under.  (a) a second copy of a separate CON response that has completed its request finds the
+    # token retired: Reset; (b) an unmatched (forged / stray) response, then the genuine one under the same message
+    # ID: the first is Reset (CON) / ignored (NON), the second completes the request
+    for rq in ("CON", "NON"):
+        for mt in ("CON", "NON"):
+            for gap in (1000, 3 * M):
+                sub = submit(1000, 0, 0, rel=(rq == "CON"))
+                rules = [{"remote": 0, "mtype": "CON", "nth": 1, "after": 300, "do": "ack"}] if rq == "CON" else []
+                ev = [sub, ["R", 5000, 0, False, mt, CONTENT, 9100, "21", None, 201],
+                      ["R", 5000 + gap, 0, False, mt, CONTENT, 9100, "21", None, 201]]
+                scripts.append({"events": ev + [far_end(ev)], "rules": rules, "draws": [2 * M], "tag":
+                                f"peer-mid:response-duplicate:{rq}:{mt}:{gap}"})
+                ev = [sub, ["R", 5000, 0, False, mt, CONTENT, 9100, "7f", None, 666],
+                      ["R", 5000 + gap, 0, False, mt, CONTENT, 9100, "21", None, 201]]
+                scripts.append({"events": ev + [far_end(ev)], "rules": rules, "draws": [2 * M], "tag":
+                                f"peer-mid:unmatched-then-genuine:{rq}:{mt}:{gap}"})
     return scripts
 
 
